@@ -32,7 +32,9 @@ M0 == [calls |-> <<>>,        \* k -> call record (function with a growing domai
        stalled |-> {},        \* transport writes that are blocked because the peer stopped draining
        notices |-> {},        \* wire ids named by cancellation notices handed to the transport
        notifOk |-> {},        \* refs of notifications the transport accepted
-       listens |-> {}, listenResp |-> {},        \* wire ids of subscriptions/listen calls (parked by the SDK until cancelled; answered then)
+       listens |-> {}, listenResp |-> {},
+       badB |-> {}, badE |-> {},   \* calls with parameters that cannot be encoded: begun / returned
+       wfailed |-> {},            \* our calls whose transport write failed (broken or rejected)        \* wire ids of subscriptions/listen calls (parked by the SDK until cancelled; answered then)
        respBegun |-> {},      \* request tags whose response has been handed to the transport
        usable |-> TRUE]       \* no Close, fault or reader error so far
 
@@ -104,6 +106,7 @@ OnWrEnd(e) ==
                     !.idn = IF e.kind = "resp" /\ e.outcome = "ok" /\ m.ready /\ e.id \notin m.listens THEN Put(m.idn, e.id, [Idn(e.id) EXCEPT !.resp = @ + 1]) ELSE @,
                     !.listenResp = IF e.kind = "resp" /\ e.outcome = "ok" /\ e.id \in m.listens THEN @ \cup {e.id} ELSE @,
                     !.notifOk = IF e.kind = "notif" /\ e.outcome = "ok" THEN @ \cup {e.ref} ELSE @,
+                    !.wfailed = IF e.kind = "call" /\ bad /\ e.ref # "" /\ m.ready THEN @ \cup {e.ref} ELSE @,
                     !.calls = IF e.kind = "call" /\ e.outcome = "ok" /\ e.ref # ""
                               THEN Put(m.calls, e.ref, [Call(e.ref) EXCEPT !.written = TRUE]) ELSE @]
 
@@ -159,6 +162,10 @@ OnNotifyEnd(e) ==
 OnStep(e) == IF ~e.quiet THEN m' = m ELSE
   /\ m' = m
   /\ Check(l, "C05.Removed", m.term => ~e.sessions)
+  \* a call whose parameters cannot be encoded returns at once
+  /\ Check(l, "C01.BadParamsCallFails", m.badB \subseteq m.badE)
+  \* a call whose transport write failed is completed (with an error) - whatever is wrapped around the transport
+  /\ Check(l, "C01.FailedWriteCompletesCall", \A k \in m.wfailed : Call(k).ended >= 1)
   \* a response delivered for an in-flight, un-cancelled call completes it (reader alive)
   /\ Check(l, "C01.ResponseCompletes",
            (e.op = "resp" /\ e.applied /\ ~m.rdDown /\ ~m.trClosed) =>
@@ -234,6 +241,9 @@ Step(e) ==
     \* a panic inside the SDK: a call completed twice, a count went negative, ... - every connection property excludes it
     [] e.ev = "panic"      -> m' = m /\ Fail(l, "C01.NoPanic") /\ Fail(l, "C02.NoPanic") /\ Fail(l, "C03.NoPanic")
                                      /\ Fail(l, "C04.NoPanic") /\ Fail(l, "C05.NoPanic")
+    [] e.ev = "callbad.begin" -> m' = [m EXCEPT !.badB = @ \cup {e.k}]
+    [] e.ev = "callbad.end" -> /\ m' = [m EXCEPT !.badE = @ \cup {e.k}]
+                               /\ Check(l, "C01.BadParamsCallFails", e.err)
     [] e.ev = "setup.error" -> m' = m /\ Fail(l, "X.Setup")
     [] OTHER               -> m' = m
 
